@@ -30,6 +30,7 @@ for f, lst in sorted(funs.items()):
         fn = os.path.join(out, f'{f}_{idx}.ndjson'); open(fn, 'w').write(reset + line)
         head, tail = line.split('"o":{', 1); o = json.loads(line)['o']
         for k, v in o.items():
+            if f == 'mpn_gcdext_hook' and k in ('un', 'ret'): continue      # un: an upper bound by contract; ret decides which fields exist
             if isinstance(v, str): new = v[:-1] + ('1' if v[-1] != '1' else '2')
             elif k == 'bits': new = v ^ 1          # the sign bit e of the Jacobi state (events with coprime operands are chosen, see below)
             elif isinstance(v, int): new = (1 - v) if (k in ('sep',) or (k == 'ret' and v in (0, 1) and 'hgcd2' in f)) else v + 1
